@@ -129,8 +129,14 @@ def finish(prop, tier, seed, results, t0, extra_assumptions=(), program=None, co
         warn = ""
         if r.reference is not None and 0 < r.n < r.reference:
             warn = "  WARNING: fewer instances than the hand-confirmed reference"
-        print("  [%s] %-8s %-9s instances=%d%s violations=%d%s" % (
-            "FAIL" if nv else " ok ", r.rule_id, r.kind, r.n, ref, nv, warn))
+        nk = sum(1 for f in r.findings if f.key in known_keys)
+        status = " ok "
+        if nv - nk > 0:
+            status = "FAIL"
+        elif nk:
+            status = "knwn"
+        print("  [%s] %-8s %-9s instances=%d%s violations=%d%s%s" % (
+            status, r.rule_id, r.kind, r.n, ref, nv - nk, (" known=%d" % nk) if nk else "", warn))
         for note in r.notes:
             print("        note: %s" % note)
         for desc, verdict in r.instances[:3]:
